@@ -16,6 +16,7 @@ import det
 det.install()
 
 import io
+import zlib
 import json
 import multiprocessing
 import os
@@ -199,8 +200,16 @@ def facade_items(idp, src, level, kind):
 
     def rr(box):
         iso = pycdlib.PyCdlib()
-        iso.new(interchange_level=level, rock_ridge='1.09')
-        f = iso.get_rock_ridge_facade()
+        if zlib.crc32(idp.encode()) % 2:
+            # the object (and the facade made for it) had another image before, at another
+            # interchange level: the names the facade derives belong to the image of now
+            iso.new(interchange_level={1: 3, 2: 4, 3: 1, 4: 2}[level], rock_ridge='1.09')
+            f = iso.get_rock_ridge_facade()
+            iso.close()
+            iso.new(interchange_level=level, rock_ridge='1.09')
+        else:
+            iso.new(interchange_level=level, rock_ridge='1.09')
+            f = iso.get_rock_ridge_facade()
         f.add_fp(io.BytesIO(SIBLING), len(SIBLING), '/q-sibling', None)
 
         def add():
